@@ -14,13 +14,46 @@ import (
 	"github.com/vedadiyan/genql"
 )
 
+// a CASE branch: a call-free expression, or the call SETVAR(key, e)
+type c20Branch struct {
+	Set bool   `json:"set,omitempty"`
+	Key *Expr  `json:"key,omitempty"`
+	E   *Expr  `json:"e"`
+	Fn  string `json:"fn,omitempty"`
+}
+
+type c20Arm struct {
+	Cond *Expr     `json:"cond"`
+	B    c20Branch `json:"b"`
+}
+
+func (b c20Branch) sql() string {
+	if b.Set {
+		fn := b.Fn
+		if fn == "" {
+			fn = "SETVAR"
+		}
+		return call(fn, b.Key, b.E).SQL()
+	}
+	return b.E.SQL()
+}
+
+func (b c20Branch) coq() string {
+	if b.Set {
+		return "(BSet " + b.Key.Coq() + " " + b.E.Coq() + ")"
+	}
+	return "(BExpr " + b.E.Coq() + ")"
+}
+
 type c20Item struct {
-	K     string `json:"k"` // set | get | pure
-	Key   *Expr  `json:"key,omitempty"`
-	E     *Expr  `json:"e,omitempty"`
-	Name  string `json:"name,omitempty"`  // get/pure: output name (pure column without alias: the column)
-	Alias bool   `json:"alias,omitempty"` // pure column item / set item: spell an alias
-	Fn    string `json:"fn,omitempty"`    // spelling of the function name (SETVAR, setvar, SetVar ...)
+	K     string     `json:"k"`               // set | get | pure | case
+	Whens []c20Arm   `json:"whens,omitempty"` // case: WHEN cond THEN branch ...
+	Else  *c20Branch `json:"else,omitempty"`  // case: ELSE branch (nil = none)
+	Key   *Expr      `json:"key,omitempty"`
+	E     *Expr      `json:"e,omitempty"`
+	Name  string     `json:"name,omitempty"`  // get/pure: output name (pure column without alias: the column)
+	Alias bool       `json:"alias,omitempty"` // pure column item / set item: spell an alias
+	Fn    string     `json:"fn,omitempty"`    // spelling of the function name (SETVAR, setvar, SetVar ...)
 }
 
 type c20Query struct {
@@ -41,6 +74,15 @@ func call(name string, args ...*Expr) *Expr { return &Expr{K: "call", Name: name
 
 func (it c20Item) sql() string {
 	switch it.K {
+	case "case":
+		s := "CASE"
+		for _, w := range it.Whens {
+			s += " WHEN " + w.Cond.SQL() + " THEN " + w.B.sql()
+		}
+		if it.Else != nil {
+			s += " ELSE " + it.Else.sql()
+		}
+		return s + " END AS " + sqlIdent(it.Name)
 	case "set":
 		s := call(it.fn("SETVAR"), it.Key, it.E).SQL()
 		if it.Alias {
@@ -66,6 +108,16 @@ func (it c20Item) fn(def string) string {
 
 func (it c20Item) coq() string {
 	switch it.K {
+	case "case":
+		ws := make([]string, len(it.Whens))
+		for i, w := range it.Whens {
+			ws[i] = "(" + w.Cond.Coq() + ", " + w.B.coq() + ")"
+		}
+		el := "None"
+		if it.Else != nil {
+			el = "(Some " + it.Else.coq() + ")"
+		}
+		return "(VCase " + coqList(ws) + " " + el + " " + coqStr(it.Name) + ")"
 	case "set":
 		return "(VSet " + it.Key.Coq() + " " + it.E.Coq() + ")"
 	case "get":
@@ -340,6 +392,108 @@ func (g *c20Gen) pure(i int) c20Item {
 		g.tag("pure:literal")
 		return c20Item{K: "pure", E: Pick(r, []*Expr{Num(7), Str("lit"), {K: "null"}}), Name: fmt.Sprintf("c%d", i)}
 	}
+}
+
+// a CASE condition: pure, or reading the store
+func (g *c20Gen) cond(allowErr bool) *Expr {
+	r := g.r
+	numcol := func() *Expr { return Col(Pick(r, []string{"n1", "n2", "id"})) }
+	switch p := r.Intn(100); {
+	case p < 40:
+		g.tag("cond:pure-cmp")
+		return Cmp(Pick(r, cmpOps), numcol(), Num(Pick(r, numPool)))
+	case p < 60:
+		g.tag("cond:getvar-is-null")
+		return &Expr{K: "is", Op: Pick(r, []string{"NULL", "NOT NULL"}), A: g.getvar(Str(Pick(r, c20Keys)))}
+	case p < 82:
+		g.tag("cond:getvar-cmp")
+		return Cmp(Pick(r, cmpOps), g.getvar(Str(Pick(r, c20Keys))), Pick(r, []*Expr{numcol(), Num(Pick(r, numPool))}))
+	case p < 88:
+		g.tag("cond:bool-literal")
+		return &Expr{K: "bool", Bool: r.Bool()}
+	case p < 92:
+		g.tag("cond:str-eq")
+		return Cmp("=", Col("s1"), Col("s2"))
+	default:
+		if allowErr {
+			switch r.Intn(4) {
+			case 0:
+				g.tag("cond:err-bool-column")
+				return Col("b1")
+			case 1:
+				g.tag("cond:err-getvar-raw")
+				return g.getvar(Str(Pick(r, c20Keys)))
+			case 2:
+				g.tag("cond:err-null")
+				return &Expr{K: "null"}
+			default:
+				g.tag("cond:err-string-arith")
+				return Cmp(">", Bin("+", Col("s1"), Num(1)), Num(0))
+			}
+		}
+		g.tag("cond:pure-cmp")
+		return Cmp(Pick(r, cmpOps), numcol(), numcol())
+	}
+}
+
+func (g *c20Gen) branch(allowErr bool, wantSet bool) c20Branch {
+	r := g.r
+	if wantSet {
+		k := g.key()
+		g.tag("branch:set")
+		return c20Branch{Set: true, Key: k, E: g.value(k, allowErr), Fn: Pick(r, []string{"", "", "setvar", "SetVar"})}
+	}
+	g.tag("branch:expr")
+	switch r.Intn(5) {
+	case 0:
+		return c20Branch{E: Col(Pick(r, []string{"id", "n1", "s1", "b1", "z"}))}
+	case 1:
+		return c20Branch{E: Bin(Pick(r, []string{"+", "*"}), Col("id"), Num(float64(r.Intn(3))))}
+	case 2:
+		return c20Branch{E: Pick(r, []*Expr{Num(7), Str("lit"), {K: "null"}, {K: "bool", Bool: true}})}
+	case 3:
+		if allowErr {
+			g.tag("branch:expr-err")
+			return c20Branch{E: Bin("+", Col("s1"), Num(1))}
+		}
+		return c20Branch{E: Col("o", "p", "q")}
+	default:
+		return c20Branch{E: Col(Pick(r, []string{"n2", "s2"}))}
+	}
+}
+
+func (g *c20Gen) caseItem(i int, allowErr bool) c20Item {
+	r := g.r
+	it := c20Item{K: "case", Name: fmt.Sprintf("w%d", i)}
+	if r.Chance(10) && i > 0 {
+		it.Name = fmt.Sprintf("g%d", i-1)
+		g.tag("case:name-clash")
+	}
+	arms := 1
+	if r.Chance(30) {
+		arms = r.Range(2, 3)
+	}
+	g.tag(fmt.Sprintf("case:arms%d", arms))
+	anySet := false
+	for a := 0; a < arms; a++ {
+		set := r.Chance(60)
+		anySet = anySet || set
+		it.Whens = append(it.Whens, c20Arm{Cond: g.cond(allowErr), B: g.branch(allowErr, set)})
+	}
+	switch p := r.Intn(100); {
+	case p < 20:
+		g.tag("case:no-else")
+	default:
+		set := !anySet || r.Chance(35)
+		b := g.branch(allowErr, set)
+		it.Else = &b
+		if set {
+			g.tag("case:else-set")
+		} else {
+			g.tag("case:else-expr")
+		}
+	}
+	return it
 }
 
 func (g *c20Gen) query(tables []string, allowErr bool) c20Query {
@@ -671,6 +825,42 @@ func genC20(r *Rand, tier string) []Case {
 			qs = append(qs, q)
 		}
 		mk(c20In{Doc: doc, Mode: mode, Vars: vars, Qs: qs}, g.tags, hasSet && hasGet && mode == "map")
+	}
+	// (3) CASE items whose branches are SETVAR calls, among the other item forms
+	nc := 700
+	if tier == "thorough" {
+		nc = 7000
+	}
+	for i := 0; i < nc; i++ {
+		g := &c20Gen{r: r, tags: map[string]bool{"stream:case": true}}
+		mode := "map"
+		if r.Chance(6) {
+			mode = "none"
+		}
+		var vars map[string]any
+		if mode == "map" {
+			vars = c20InitialVars(r, g)
+		}
+		t, u := genTable(r, 6), genTable(r, 4)
+		doc := map[string]any{"t": t.rows, "u": u.rows}
+		g.tag(fmt.Sprintf("tablerows:%d", len(t.rows)))
+		allowErr := r.Chance(25)
+		nq := r.Range(1, 3)
+		var qs []c20Query
+		for j := 0; j < nq; j++ {
+			q := g.query([]string{"t", "t", "u"}, allowErr)
+			// replace / insert 1-2 CASE items
+			for c := r.Range(1, 2); c > 0; c-- {
+				pos := r.Intn(len(q.Items) + 1)
+				it := g.caseItem(pos, allowErr)
+				items := append([]c20Item{}, q.Items[:pos]...)
+				items = append(items, it)
+				q.Items = append(items, q.Items[pos:]...)
+			}
+			qs = append(qs, q)
+		}
+		qs = append(qs, c20Query{Table: "t", Items: []c20Item{{K: "get", Key: Str("k1"), Name: "a1"}, {K: "get", Key: Str("k2"), Name: "a2"}, {K: "get", Key: Str("k3"), Name: "a3"}}})
+		mk(c20In{Doc: doc, Mode: mode, Vars: vars, Qs: qs}, g.tags, mode == "map")
 	}
 	return out
 }
